@@ -16,7 +16,9 @@ package gose
 // semantics.
 
 import (
+	"fmt"
 	"go/types"
+	"os"
 	"strings"
 	"sync"
 
@@ -131,6 +133,14 @@ func mergeableCheck(fn *ssa.Function) bool {
 						return false
 					}
 				}
+			case *ssa.Range:
+				if !isString(x.X.Type()) {
+					return false
+				}
+			case *ssa.Next:
+				if !x.IsString {
+					return false
+				}
 			case *ssa.If:
 				branches = true
 			case *ssa.UnOp:
@@ -183,6 +193,9 @@ func (m *Machine) mergedCall(fn *ssa.Function, args []Value, env []Value) (res V
 				g.stack = g.stack[:stack0]
 			}
 			m.inIntrinsic = inIntr
+			if os.Getenv("VERIF_MERGE_DEBUG") != "" {
+				fmt.Fprintf(os.Stderr, "merge abort in %s: %T %v\n", fn, r, r)
+			}
 			switch r.(type) {
 			case mergeAbort, goPanic, intrinsicFallback:
 				// run it the ordinary way (which reproduces the panic on its own path)
@@ -365,4 +378,21 @@ func (m *Machine) mergeFeasible(t *sym.Term) bool {
 		panic(mergeAbort{"solver unknown"})
 	}
 	return r == smt.Sat
+}
+
+// decideLen fixes the length of a symbolic string on the current path: by concretisation
+// on an ordinary path, by local decisions inside a merge scope.
+func (m *Machine) decideLen(s *sym.Str) int {
+	if s.Len.IsConst() {
+		return int(s.Len.Val)
+	}
+	if m.merge == nil {
+		return int(m.Concretize(s.Len, false))
+	}
+	for n := 0; n < len(s.Ch); n++ {
+		if m.Decide(m.C.Eq(s.Len, m.C.L(n))) {
+			return n
+		}
+	}
+	return len(s.Ch)
 }
